@@ -176,8 +176,59 @@ Definition did_for (calc : info -> res did) (o : option jv) (i : info) : res did
   | Some _ => inr E_TYPE                 (* unhashable key of _nodes_by_data_id *)
   end.
 
-Definition mk_info (i : info) (d : did) : info :=
-  I (i_obj i) (i_eqc i) (i_hash i) (i_isstr i) (i_name i) d None [].
+(* node_id=item.get("node_id"): Node.__init__ stores int(node_id).  For a str:
+   ASCII digits (the other spellings int() accepts – sign, blanks, underscores,
+   non-ASCII digits – are outside the modelled domain). *)
+Definition k_node_id : text := [110; 111; 100; 101; 95; 105; 100].
+Definition E_VALUE : Z := 3.
+Definition E_ASSERT : Z := 6.
+
+Fixpoint digits_val (acc : Z) (s : text) : option Z :=
+  match s with
+  | [] => Some acc
+  | c :: r => if (48 <=? c) && (c <=? 57) then digits_val (acc * 10 + (c - 48)) r else None
+  end.
+
+Definition nid_of (o : option jv) : res (option Z) :=
+  match o with
+  | None | Some JNull => inl None
+  | Some (JInt z) => inl (Some z)
+  | Some (JBool b) => inl (Some (if b then 1 else 0))
+  | Some (JStr []) => inr E_VALUE
+  | Some (JStr s) => match digits_val 0 s with Some z => inl (Some z) | None => inr E_VALUE end
+  | Some _ => inr E_TYPE
+  end.
+
+(* Tree._register: [assert node._node_id and node._node_id not in self._node_by_id];
+   [used] = the explicit node ids registered so far (the default id(node) of the
+   other nodes is assumed never to coincide with an explicit one) *)
+Definition nid_check (o : option jv) (used : list Z) : res (option Z) :=
+  match nid_of o with
+  | inr e => inr e
+  | inl None => inl None
+  | inl (Some z) => if Z.eqb z 0 || existsb (Z.eqb z) used then inr E_ASSERT else inl (Some z)
+  end.
+
+Definition opt_list {X} (o : option X) : list X := match o with Some x => [x] | None => [] end.
+
+(* calc_data_id(data) runs in Node.__init__ before int(node_id); an explicit
+   data_id is only looked at in Tree._register, after the assert *)
+Definition did_early (o : option jv) : bool :=
+  match o with None | Some JNull => true | _ => false end.
+
+(* an explicit node id is kept in the node's meta slot of the model (the
+   payload record has no field for it); kind None, no other meta *)
+Definition mk_info (i : info) (d : did) (nid : option Z) : info :=
+  I (i_obj i) (i_eqc i) (i_hash i) (i_isstr i) (i_name i) d None
+    (match nid with Some z => [(k_node_id, A z)] | None => [] end).
+
+(* the explicit node ids an item and its descendants register, in pre-order *)
+Fixpoint nids (p : pt) : list Z :=
+  match p with
+  | PBad => []
+  | PT d kids =>
+      (match nid_of (dget k_node_id d) with inl (Some z) => [z] | _ => [] end) ++ flat_map nids kids
+  end.
 
 Section FromDict.
   Variable dd : dmapper.
@@ -185,49 +236,59 @@ Section FromDict.
 
   (* one loop iteration of Node.from_dict for item [p]; [seen] = data_ids of
      the children appended to the same parent so far (Tree._register refuses a
-     second node with that data_id under one parent).  Node identities are
-     assigned afterwards ([renum]): they do not influence anything here. *)
-  Fixpoint fd_item (p : pt) (seen : list did) {struct p} : res rt :=
+     second node with that data_id under one parent); [used] = explicit node
+     ids registered so far.  Node identities are assigned afterwards ([renum]):
+     they do not influence anything here. *)
+  Fixpoint fd_item (p : pt) (seen : list did) (used : list Z) {struct p} : res rt :=
     match p with
     | PBad => inr E_TYPE
     | PT d kids =>
         match dd d with
         | inr e => inr e
         | inl i0 =>
-            match did_for calc (dget k_data_id d) i0 with
+            let dres := did_for calc (dget k_data_id d) i0 in
+            match (if did_early (dget k_data_id d) then dres else inl (DInt 0)) with
             | inr e => inr e
-            | inl dv =>
-                if existsb (did_eqb dv) seen then inr E_UNIQUE
-                else
-                  match (fix loop (l : list pt) (seen' : list did) {struct l} : res (list rt) :=
-                           match l with
-                           | [] => inl []
-                           | x :: xs =>
-                               match fd_item x seen' with
-                               | inr e => inr e
-                               | inl t =>
-                                   match loop xs (seen' ++ [rdid t]) with
-                                   | inr e => inr e
-                                   | inl ts => inl (t :: ts)
-                                   end
-                               end
-                           end) kids [] with
-                  | inr e => inr e
-                  | inl ch => inl (T 0%nat (mk_info i0 dv) ch)
-                  end
+            | inl _ =>
+                match nid_check (dget k_node_id d) used with
+                | inr e => inr e
+                | inl nid =>
+                    match dres with
+                    | inr e => inr e
+                    | inl dv =>
+                        if existsb (did_eqb dv) seen then inr E_UNIQUE
+                        else
+                          match (fix loop (l : list pt) (seen' : list did) (used' : list Z) {struct l} : res (list rt) :=
+                                   match l with
+                                   | [] => inl []
+                                   | x :: xs =>
+                                       match fd_item x seen' used' with
+                                       | inr e => inr e
+                                       | inl t =>
+                                           match loop xs (seen' ++ [rdid t]) (used' ++ nids x) with
+                                           | inr e => inr e
+                                           | inl ts => inl (t :: ts)
+                                           end
+                                       end
+                                   end) kids [] (used ++ opt_list nid) with
+                          | inr e => inr e
+                          | inl ch => inl (T 0%nat (mk_info i0 dv nid) ch)
+                          end
+                    end
+                end
             end
         end
     end.
 
   (* the [for item in obj] loop of Node.from_dict *)
-  Fixpoint fd_loop (l : list pt) (seen : list did) {struct l} : res (list rt) :=
+  Fixpoint fd_loop (l : list pt) (seen : list did) (used : list Z) {struct l} : res (list rt) :=
     match l with
     | [] => inl []
     | x :: xs =>
-        match fd_item x seen with
+        match fd_item x seen used with
         | inr e => inr e
         | inl t =>
-            match fd_loop xs (seen ++ [rdid t]) with
+            match fd_loop xs (seen ++ [rdid t]) (used ++ nids x) with
             | inr e => inr e
             | inl ts => inl (t :: ts)
             end
@@ -260,7 +321,7 @@ Fixpoint renum_f (n : nat) (f : forest) {struct f} : forest * nat :=
 (* Tree.from_dict(obj, mapper): a new Tree (default calc_data_id = hash), its
    system root runs Node.from_dict.  [next] = number of nodes allocated before. *)
 Definition from_dict (dd : dmapper) (calc : info -> res did) (next : nat) (obj : list jv) : res forest :=
-  match fd_loop dd calc (map parse obj) [] with
+  match fd_loop dd calc (map parse obj) [] [] with
   | inr e => inr e
   | inl f => inl (fst (renum_f next f))
   end.
@@ -272,8 +333,6 @@ Definition tree_from_dict (dd : dmapper) (next : nat) (obj : list jv) : res fore
    self._children], then the same loop with the tree's own calc_data_id; the
    new nodes become the children of the target.  (What a refused call leaves
    behind is not modelled: the result is the error class only.) *)
-Definition E_ASSERT : Z := 6.
-
 Fixpoint set_ch (target : nat) (new : list rt) (t : rt) : rt :=
   match t with
   | T id i ch => if Nat.eqb id target then T id i new else T id i (map (set_ch target new) ch)
@@ -313,11 +372,12 @@ Fixpoint sx_jv (j : jv) : sx :=
   end.
 
 (* a rebuilt node: identity, what is observable of its data object (equality
-   class, hash, str-ness, name), data_id, children *)
+   class, hash, str-ness, name), data_id, explicit node_id if any, children *)
 Fixpoint sx_rebuilt (t : rt) : sx :=
   match t with
   | T id i ch =>
-      L [sx_nat id; L [A (i_eqc i); A (i_hash i); sx_bool (i_isstr i); sx_text (i_name i); sx_did (i_did i)];
+      L [sx_nat id; L [A (i_eqc i); A (i_hash i); sx_bool (i_isstr i); sx_text (i_name i); sx_did (i_did i);
+                       L (map snd (i_meta i))];
          L (map sx_rebuilt ch)]
   end.
 
